@@ -1,5 +1,5 @@
 (* C19 (part 1) -- proofs about Model/Demux.v *)
-From Coq Require Import ZArith List Bool Lia.
+From Coq Require Import ZArith List Bool Lia Sorted.
 From RV Require Import Lib.Wrap.
 From RV Require Import Gen.RtpDemux.
 From RV Require Import Model.Demux.
@@ -185,7 +185,7 @@ Inductive chosen (s : st) (p : pkt) : lid -> stage -> Prop :=
               (forall l', ~ pt_unique s p l') -> prov_unique s l -> chosen s p l StProv.
 
 Lemma select_unfold : forall s p,
-  select s p =
+  select_raw s p =
   match rid_match s p with Some l => Some (l, StRid, true) | None =>
   match mid_match s p with Some l => Some (l, StMid, true) | None =>
   match ssrc_match s p with Some l => Some (l, StSsrc, false) | None =>
@@ -194,8 +194,8 @@ Lemma select_unfold : forall s p,
   end end end end end.
 Proof. intros s p. reflexivity. Qed.
 
-Lemma select_priority : forall s p l g b,
-  select s p = Some (l, g, b) <-> chosen s p l g /\ b = stage_binds g.
+Lemma select_raw_priority : forall s p l g b,
+  select_raw s p = Some (l, g, b) <-> chosen s p l g /\ b = stage_binds g.
 Proof.
   intros s p l g b. rewrite select_unfold.
   destruct (rid_match s p) as [l1|] eqn:R.
@@ -232,8 +232,8 @@ Proof.
   - exfalso. eapply V. exact H3.
 Qed.
 
-Lemma select_none : forall s p,
-  select s p = None <->
+Lemma select_raw_none : forall s p,
+  select_raw s p = None <->
   rid_match s p = None /\ mid_match s p = None /\ ssrc_match s p = None /\
   (forall l, ~ pt_unique s p l) /\ (forall l, ~ prov_unique s l).
 Proof.
@@ -249,6 +249,39 @@ Proof.
   unfold single_provisional in V. rewrite scan_unique_none in V.
   split; auto.
 Qed.
+
+(* the MID guard on top of the raw order: a hit of a non-extension stage on a listener that
+   registered for another MID than the packet carries is discarded *)
+Lemma select_priority : forall s p l g b,
+  select s p = Some (l, g, b) <-> chosen s p l g /\ b = stage_binds g /\ foreign s p l g = false.
+Proof.
+  intros s p l g b. unfold select. split.
+  - destruct (select_raw s p) as [[[l' g'] b']|] eqn:R; [|discriminate].
+    destruct (foreign s p l' g') eqn:F; [discriminate|]. intro H. inversion H; subst.
+    apply select_raw_priority in R. tauto.
+  - intros [C [Hb F]]. assert (R : select_raw s p = Some (l, g, b)) by (apply select_raw_priority; auto).
+    rewrite R, F. reflexivity.
+Qed.
+
+Lemma select_none : forall s p,
+  select s p = None <->
+  (rid_match s p = None /\ mid_match s p = None /\ ssrc_match s p = None /\
+   (forall l, ~ pt_unique s p l) /\ (forall l, ~ prov_unique s l))
+  \/ (exists l g, chosen s p l g /\ foreign s p l g = true).
+Proof.
+  intros s p. unfold select. destruct (select_raw s p) as [[[l g] b]|] eqn:R.
+  - pose proof R as R'. apply select_raw_priority in R'. destruct R' as [C Hb].
+    destruct (foreign s p l g) eqn:F.
+    + split; auto. intros _. right. exists l, g. auto.
+    + split; [discriminate|]. intros [H|[l' [g' [C' F']]]].
+      * apply select_raw_none in H. congruence.
+      * assert (R2 : select_raw s p = Some (l', g', stage_binds g')) by (apply select_raw_priority; auto).
+        rewrite R in R2. inversion R2; subst. congruence.
+  - split; auto. intros _. left. apply select_raw_none. exact R.
+Qed.
+
+Lemma select_sub_raw : forall s p l g b, select s p = Some (l, g, b) -> select_raw s p = Some (l, g, b).
+Proof. intros s p l g b H. apply select_priority in H. apply select_raw_priority. tauto. Qed.
 
 (* the selected listener is registered somewhere *)
 Lemma chosen_occurs : forall s p l g, chosen s p l g -> occurs s l = true.
@@ -272,7 +305,7 @@ Proof. intros s p l g b H. apply select_priority in H. destruct H as [C _]. eapp
 Lemma recv_at_most_one : forall s p, (length (snd (recv s p)) <= 1)%nat.
 Proof.
   intros s p. unfold recv. destruct (select s p) as [[[l g] b]|]; cbn; auto.
-  destruct (is_closed _ l); cbn; auto.
+  destruct (is_closed _ l); cbn; auto. destruct (is_full _ l); cbn; auto.
 Qed.
 
 Lemma step_at_most_one : forall s o, (length (snd (step s o)) <= 1)%nat.
@@ -283,52 +316,88 @@ Proof.
   induction ops as [|o ops IH]; intro s; cbn [run_out]; constructor; auto. apply step_at_most_one.
 Qed.
 
-(* the receiver is the selected listener, and only if its channel is open *)
-Lemma recv_delivers : forall s p l,
-  In l (snd (recv s p)) -> exists g b, select s p = Some (l, g, b) /\ is_closed s l = false.
+(* the receiver is the selected listener, and only if its channel is open and has room *)
+Lemma is_closed_bind : forall s x l l', is_closed (bind_ssrc_route s x l) l' = is_closed s l'.
+Proof. reflexivity. Qed.
+Lemma is_full_bind : forall s x l l', is_full (bind_ssrc_route s x l) l' = is_full s l'.
+Proof. reflexivity. Qed.
+
+Lemma recv_cases : forall s p l g b,
+  select s p = Some (l, g, b) ->
+  let s1 := if b then bind_ssrc_route s (p_ssrc p) l else s in
+  recv s p =
+  if is_closed s l then (remove_sender (set_by_ssrc s1 (zdel (by_ssrc s1) (p_ssrc p))) l, [])
+  else if is_full s l then (s1, []) else (s1, [l]).
 Proof.
-  intros s p l. unfold recv. destruct (select s p) as [[[l' g] b]|] eqn:S; cbn; [|tauto].
-  assert (Hc : forall s1, closed s1 = closed s -> is_closed s1 l' = is_closed s l').
-  { intros s1 E. unfold is_closed. rewrite E. reflexivity. }
-  destruct b.
-  - rewrite (Hc (bind_ssrc_route s (p_ssrc p) l') eq_refl).
-    destruct (is_closed s l') eqn:C; cbn; [tauto|]. intros [H|[]]; subst. eauto.
-  - destruct (is_closed s l') eqn:C; cbn; [tauto|]. intros [H|[]]; subst. eauto.
+  intros s p l g b S. cbn zeta. unfold recv. rewrite S.
+  destruct b; [rewrite is_closed_bind, is_full_bind|]; reflexivity.
+Qed.
+
+Lemma recv_delivers : forall s p l,
+  In l (snd (recv s p)) ->
+  exists g b, select s p = Some (l, g, b) /\ is_closed s l = false /\ is_full s l = false.
+Proof.
+  intros s p l. destruct (select s p) as [[[l' g] b]|] eqn:S.
+  - rewrite (recv_cases s p l' g b S).
+    destruct (is_closed s l') eqn:C; cbn [snd]; [intros []|].
+    destruct (is_full s l') eqn:F; cbn [snd]; [intros []|].
+    intros [H|[]]; subst. eauto.
+  - unfold recv. rewrite S. intros [].
 Qed.
 
 Lemma recv_open_delivers : forall s p l g b,
-  select s p = Some (l, g, b) -> is_closed s l = false -> snd (recv s p) = [l].
-Proof.
-  intros s p l g b S C. unfold recv. rewrite S.
-  assert (Hc : is_closed (if b then bind_ssrc_route s (p_ssrc p) l else s) l = false).
-  { destruct b; auto. }
-  rewrite Hc. reflexivity.
-Qed.
+  select s p = Some (l, g, b) -> is_closed s l = false -> is_full s l = false -> snd (recv s p) = [l].
+Proof. intros s p l g b S C F. rewrite (recv_cases s p l g b S), C, F. reflexivity. Qed.
 
 Lemma recv_closed_drops : forall s p l g b,
   select s p = Some (l, g, b) -> is_closed s l = true -> snd (recv s p) = [].
+Proof. intros s p l g b S C. rewrite (recv_cases s p l g b S), C. reflexivity. Qed.
+
+(* a full channel: the packet is dropped -- it goes to nobody else -- and the registry ends up
+   exactly as if it had been delivered (selection and SSRC binding already happened) *)
+Lemma full_drops : forall s p l g b,
+  select s p = Some (l, g, b) -> is_closed s l = false ->
+  let s1 := if b then bind_ssrc_route s (p_ssrc p) l else s in
+  (is_full s l = true -> recv s p = (s1, [])) /\ (is_full s l = false -> recv s p = (s1, [l])).
 Proof.
-  intros s p l g b S C. unfold recv. rewrite S.
-  assert (Hc : is_closed (if b then bind_ssrc_route s (p_ssrc p) l else s) l = true).
-  { destruct b; auto. }
-  rewrite Hc. reflexivity.
+  intros s p l g b S C. cbn zeta. rewrite (recv_cases s p l g b S), C.
+  split; intro F; rewrite F; reflexivity.
 Qed.
 
 (* ------------------------------------------------------------------ MID respected *)
 Lemma mid_respected : forall s p m l,
   pkt_mid s p = Some m -> kget (by_mid s) m = Some l -> rid_match s p = None ->
   (forall l', In l' (snd (recv s p)) -> l' = l) /\
-  (is_closed s l = false -> snd (recv s p) = [l]) /\
-  (is_closed s l = true -> snd (recv s p) = []).
+  (is_closed s l = false -> is_full s l = false -> snd (recv s p) = [l]) /\
+  (is_closed s l = true \/ is_full s l = true -> snd (recv s p) = []).
 Proof.
   intros s p m l Hm Hk Hr.
   assert (S : select s p = Some (l, StMid, true)).
-  { apply select_priority. split; [|reflexivity]. apply ch_mid; auto.
+  { apply select_priority. split; [|split; reflexivity]. apply ch_mid; auto.
     unfold mid_match, lookup_stage. rewrite Hm. exact Hk. }
   split; [|split].
   - intros l' Hin. apply recv_delivers in Hin. destruct Hin as [g [b [S' _]]]. congruence.
-  - intro C. eapply recv_open_delivers; eauto.
-  - intro C. eapply recv_closed_drops; eauto.
+  - intros C F. eapply recv_open_delivers; eauto.
+  - intros [C|F].
+    + eapply recv_closed_drops; eauto.
+    + rewrite (recv_cases s p l StMid true S), F. destruct (is_closed s l); reflexivity.
+Qed.
+
+(* a packet that names media section m is never handed, by the SSRC map / payload type /
+   provisional stages, to a listener whose route was registered for another section *)
+Lemma mid_never_foreign : forall s p m l r m',
+  pkt_mid s p = Some m -> In l (snd (recv s p)) ->
+  In r (routes s) -> r_tx r = l -> r_mid r = Some m' -> m' <> m ->
+  exists g b, select s p = Some (l, g, b) /\ (g = StRid \/ g = StMid).
+Proof.
+  intros s p m l r m' Hm Hin Hr Ht Hrm Hne.
+  apply recv_delivers in Hin. destruct Hin as [g [b [S _]]]. exists g, b. split; auto.
+  apply select_priority in S. destruct S as [_ [_ F]].
+  unfold foreign in F. rewrite Hm in F.
+  assert (O : other_mid s l m = true).
+  { unfold other_mid. apply existsb_exists. exists r. split; auto. rewrite Ht, Z.eqb_refl, Hrm. cbn.
+    destruct (key_eqb m' m) eqn:E; auto. apply key_eqb_eq in E. contradiction. }
+  rewrite O in F. destruct g; cbn in F; auto; discriminate.
 Qed.
 
 (* ------------------------------------------------------------------ provenance of map entries *)
@@ -343,8 +412,11 @@ Proof. intros. unfold with_route. destruct (existsb _ _); reflexivity. Qed.
 
 Lemma by_mid_recv_sub : forall s p e, In e (by_mid (fst (recv s p))) -> In e (by_mid s).
 Proof.
-  intros s p e. unfold recv. destruct (select s p) as [[[l g] b]|]; cbn; auto.
-  destruct (is_closed _ l); destruct b; cbn; auto; intro H; try (apply In_drop_tx in H); auto.
+  intros s p e. destruct (select s p) as [[[l g] b]|] eqn:S.
+  - rewrite (recv_cases s p l g b S).
+    destruct (is_closed s l); [|destruct (is_full s l)]; destruct b; cbn; auto;
+      intro H; apply In_drop_tx in H; auto.
+  - unfold recv. rewrite S. auto.
 Qed.
 
 Lemma by_mid_step : forall s o m l,
@@ -363,7 +435,8 @@ Proof.
   - left. exact H.
   - cbn in H. destruct H.
   - left. exact H.
-  - left. eapply by_mid_recv_sub; eauto.
+  - left. exact H.
+  - left. cbn [after_recv set_qs by_mid] in H. eapply by_mid_recv_sub; eauto.
 Qed.
 
 Lemma by_mid_provenance : forall ops s m l,
@@ -374,10 +447,10 @@ Proof.
   apply by_mid_step in H. destruct H as [H|H]; auto. right. left. auto.
 Qed.
 
-Lemma mid_section_registered : forall ops m l,
-  kget (by_mid (run init ops)) m = Some l -> In (RegMid m l) ops.
+Lemma mid_section_registered : forall c ops m l,
+  kget (by_mid (run (init_with c) ops)) m = Some l -> In (RegMid m l) ops.
 Proof.
-  intros ops m l H. apply kget_In in H. apply by_mid_provenance in H. destruct H as [[]|H]; auto.
+  intros c ops m l H. apply kget_In in H. apply by_mid_provenance in H. destruct H as [[]|H]; auto.
 Qed.
 
 Lemma register_mid_owner : forall s m l, kget (by_mid (fst (step s (RegMid m l)))) m = Some l.
@@ -395,7 +468,7 @@ Definition binds (s : st) (o : op) (x : Z) (l : lid) : Prop :=
 
 Lemma select_bind_evidence : forall s p l g, select s p = Some (l, g, true) -> evidence g.
 Proof.
-  intros s p l g H. apply select_priority in H. destruct H as [_ Hb].
+  intros s p l g H. apply select_priority in H. destruct H as [_ [Hb _]].
   unfold evidence. destruct g; cbn in Hb; auto; discriminate.
 Qed.
 
@@ -403,19 +476,20 @@ Lemma by_ssrc_recv : forall s p x l,
   In (x, l) (by_ssrc (fst (recv s p))) ->
   In (x, l) (by_ssrc s) \/ (p_ssrc p = x /\ exists g, select s p = Some (l, g, true) /\ evidence g).
 Proof.
-  intros s p x l. unfold recv. destruct (select s p) as [[[l' g] b]|] eqn:S; cbn [fst]; auto.
-  destruct b.
-  - assert (Hb : In (x, l) (by_ssrc (bind_ssrc_route s (p_ssrc p) l')) ->
-                 In (x, l) (by_ssrc s) \/ (p_ssrc p = x /\ l' = l)).
-    { cbn. intro H. apply In_zput in H. destruct H as [[H1 H2]|H]; subst; auto. left. eapply In_keep_open; eauto. }
-    destruct (is_closed _ l'); cbn [fst].
-    + cbn [remove_sender by_ssrc set_by_ssrc]. intro H. apply In_drop_tx in H. unfold zdel in H. apply filter_In in H.
-      destruct H as [H _]. apply Hb in H. destruct H as [H|[H1 H2]]; auto. subst. right. split; auto.
-      exists g. split; auto. eapply select_bind_evidence; eauto.
-    + intro H. apply Hb in H. destruct H as [H|[H1 H2]]; auto. subst. right. split; auto.
-      exists g. split; auto. eapply select_bind_evidence; eauto.
-  - destruct (is_closed s l'); cbn [fst]; auto.
-    cbn [remove_sender by_ssrc set_by_ssrc]. intro H. apply In_drop_tx in H. unfold zdel in H. apply filter_In in H. tauto.
+  intros s p x l. destruct (select s p) as [[[l' g] b]|] eqn:S; [|unfold recv; rewrite S; auto].
+  rewrite (recv_cases s p l' g b S).
+  assert (Hb : In (x, l) (by_ssrc (if b then bind_ssrc_route s (p_ssrc p) l' else s)) ->
+               In (x, l) (by_ssrc s) \/ (p_ssrc p = x /\ l' = l /\ b = true)).
+  { destruct b; auto. cbn. intro H. apply In_zput in H. destruct H as [[H1 H2]|H]; subst; auto.
+    left. eapply In_keep_open; eauto. }
+  assert (Fin : In (x, l) (by_ssrc (if b then bind_ssrc_route s (p_ssrc p) l' else s)) ->
+                In (x, l) (by_ssrc s) \/
+                (p_ssrc p = x /\ exists g0, Some (l', g, b) = Some (l, g0, true) /\ evidence g0)).
+  { intro H. apply Hb in H. destruct H as [H|[H1 [H2 H3]]]; auto. subst. right. split; auto.
+    exists g. split; auto. eapply select_bind_evidence; eauto. }
+  destruct (is_closed s l'); [|destruct (is_full s l'); cbn [fst]; exact Fin].
+  cbn [fst remove_sender by_ssrc set_by_ssrc]. intro H. apply In_drop_tx in H. unfold zdel in H.
+  apply filter_In in H. destruct H as [H _]. apply Fin. exact H.
 Qed.
 
 Lemma by_ssrc_step : forall s o x l,
@@ -433,7 +507,8 @@ Proof.
   - left. exact H.
   - cbn in H. destruct H.
   - left. exact H.
-  - apply by_ssrc_recv. exact H.
+  - left. exact H.
+  - cbn [after_recv set_qs by_ssrc] in H. apply by_ssrc_recv. exact H.
 Qed.
 
 Lemma binding_sound : forall ops s x l,
@@ -447,10 +522,10 @@ Proof.
   - right. exists (o :: pre), o', post. split; [cbn; rewrite E; reflexivity|]. exact B.
 Qed.
 
-Lemma binding_sound_init : forall ops x l,
-  zget (by_ssrc (run init ops)) x = Some l ->
-  exists pre o post, ops = pre ++ o :: post /\ binds (run init pre) o x l.
-Proof. intros ops x l H. apply zget_In in H. apply binding_sound in H. destruct H as [[]|H]; auto. Qed.
+Lemma binding_sound_init : forall c ops x l,
+  zget (by_ssrc (run (init_with c) ops)) x = Some l ->
+  exists pre o post, ops = pre ++ o :: post /\ binds (run (init_with c) pre) o x l.
+Proof. intros c ops x l H. apply zget_In in H. apply binding_sound in H. destruct H as [[]|H]; auto. Qed.
 
 (* a packet routed by the SSRC map or by the provisional fallback never adds a binding *)
 Lemma fallback_never_binds : forall s p l g b,
@@ -459,12 +534,19 @@ Lemma fallback_never_binds : forall s p l g b,
 Proof.
   intros s p l g b S Hg.
   assert (Hb : b = false).
-  { apply select_priority in S. destruct S as [_ Hb]. destruct Hg; subst; reflexivity. }
+  { apply select_priority in S. destruct S as [_ [Hb _]]. destruct Hg; subst; reflexivity. }
   split; auto. subst b. intros [x l0] Hin. apply by_ssrc_recv in Hin. destruct Hin as [H|[_ [g' [S' _]]]]; auto.
   rewrite S in S'. discriminate.
 Qed.
 
 (* ------------------------------------------------------------------ closed listeners *)
+Lemma closed_recv : forall s p, closed (fst (recv s p)) = closed s.
+Proof.
+  intros s p. destruct (select s p) as [[[l g] b]|] eqn:S; [|unfold recv; rewrite S; reflexivity].
+  rewrite (recv_cases s p l g b S).
+  destruct (is_closed s l); [|destruct (is_full s l)]; destruct b; reflexivity.
+Qed.
+
 Lemma is_closed_step_mono : forall s o l, is_closed s l = true -> is_closed (fst (step s o)) l = true.
 Proof.
   intros s o l H.
@@ -483,14 +565,14 @@ Proof.
   - cbn. right. exact Hx.
   - exact Hx.
   - exact Hx.
-  - unfold recv. destruct (select s p) as [[[l' g] b]|]; cbn; auto.
-    destruct b; destruct (is_closed _ l'); cbn; auto.
+  - exact Hx.
+  - cbn [after_recv set_qs closed]. rewrite closed_recv. exact Hx.
 Qed.
 
 Lemma closed_never_receives_step : forall s o l, is_closed s l = true -> ~ In l (snd (step s o)).
 Proof.
   intros s o l C Hin. destruct o; cbn [step snd] in Hin; try (destruct Hin; fail).
-  apply recv_delivers in Hin. destruct Hin as [g [b [_ C']]]. congruence.
+  apply recv_delivers in Hin. destruct Hin as [g [b [_ [C' _]]]]. congruence.
 Qed.
 
 Lemma closed_never_receives : forall ops s l, is_closed s l = true -> ~ In l (concat (run_out s ops)).
@@ -515,9 +597,7 @@ Lemma closed_observed_removed : forall s p l g b,
   snd (recv s p) = [] /\ occurs (fst (recv s p)) l = false.
 Proof.
   intros s p l g b S C. split; [eapply recv_closed_drops; eauto|].
-  unfold recv. rewrite S.
-  assert (Hc : is_closed (if b then bind_ssrc_route s (p_ssrc p) l else s) l = true) by (destruct b; auto).
-  rewrite Hc. cbn [fst]. apply occurs_remove_sender.
+  rewrite (recv_cases s p l g b S), C. cbn [fst]. apply occurs_remove_sender.
 Qed.
 
 (* occurs is not created by operations that do not name the listener *)
@@ -576,14 +656,16 @@ Qed.
 
 Lemma occ4_recv : forall s p l, occ4 s l -> occ4 (fst (recv s p)) l.
 Proof.
-  intros s p l O. unfold recv. destruct (select s p) as [[[l' g] b]|] eqn:S; cbn [fst]; auto.
+  intros s p l O. destruct (select s p) as [[[l' g] b]|] eqn:S; [|unfold recv; rewrite S; exact O].
+  rewrite (recv_cases s p l' g b S).
   assert (Hne : l' <> l).
   { intro E. subst. apply select_occurs in S. apply occurs_false_iff in O. congruence. }
   assert (O1 : occ4 (if b then bind_ssrc_route s (p_ssrc p) l' else s) l).
   { destruct b; auto. destruct O as [H1 [H2 [H3 H4]]]. unfold occ4. cbn. repeat split; auto.
     apply existsb_zput_false; auto. apply existsb_filter_mono. exact H1. }
-  destruct (is_closed _ l'); cbn [fst]; auto.
-  destruct O1 as [H1 [H2 [H3 H4]]]. unfold occ4, remove_sender, drop_tx. cbn [by_ssrc by_rid by_mid routes set_by_ssrc].
+  destruct (is_closed s l'); [|destruct (is_full s l'); cbn [fst]; exact O1].
+  cbn [fst]. destruct O1 as [H1 [H2 [H3 H4]]]. unfold occ4, remove_sender, drop_tx.
+  cbn [by_ssrc by_rid by_mid routes set_by_ssrc].
   repeat split; apply existsb_filter_mono; auto. unfold zdel. apply existsb_filter_mono. exact H1.
 Qed.
 
@@ -604,7 +686,8 @@ Proof.
   - exact O.
   - destruct O as [H1 [H2 [H3 H4]]]. unfold occ4, clear_listeners. cbn. auto.
   - exact O.
-  - apply occ4_recv. exact O.
+  - exact O.
+  - apply (occ4_recv s p l) in O. exact O.
 Qed.
 
 Lemma occurs_preserved : forall ops s l,
@@ -638,7 +721,7 @@ Lemma clear_drops_all : forall s p,
 Proof.
   intros s p.
   assert (S : select (clear_listeners s) p = None).
-  { rewrite select_unfold. unfold rid_match, mid_match, ssrc_match, lookup_stage.
+  { unfold select. rewrite select_unfold. unfold rid_match, mid_match, ssrc_match, lookup_stage.
     cbn [clear_listeners by_rid by_mid by_ssrc routes].
     destruct (pkt_rid _ p); destruct (pkt_mid _ p); reflexivity. }
   split; auto. split.
@@ -658,11 +741,11 @@ Proof.
   assert (NU : forall l, ~ pt_unique s p l).
   { unfold pt_unique. apply (two_routes_not_unique _ _ r1 r2); auto. }
   split.
-  - intros l g b Sel. apply select_priority in Sel. destruct Sel as [C Hb].
+  - intros l g b Sel. apply select_priority in Sel. destruct Sel as [C [Hb _]].
     inversion C; subst; try congruence.
     + exfalso. eapply NU; eauto.
     + auto.
-  - intro NP. assert (Sel : select s p = None). { apply select_none. auto. }
+  - intro NP. assert (Sel : select s p = None). { apply select_none. left. auto. }
     unfold recv. rewrite Sel. reflexivity.
 Qed.
 
@@ -686,46 +769,228 @@ Lemma unknown_pt_dropped : forall s p,
   recv s p = (s, []).
 Proof.
   intros s p R M S NPt NP. assert (Sel : select s p = None).
-  { apply select_none. repeat split; auto.
+  { apply select_none. left. repeat split; auto.
     - unfold pt_unique. apply no_route_not_unique. exact NPt.
     - unfold prov_unique. apply no_route_not_unique. exact NP. }
   unfold recv. rewrite Sel. reflexivity.
 Qed.
 
+(* ------------------------------------------------------------------ bounded channels: FIFO, no duplicates *)
+(* the log of queued packets is strictly increasing in tags and below the tick: every queue
+   (a sub-list) is in arrival order without duplicates, and no tag sits in two queues *)
+Fixpoint tags_sorted (q : list (lid * Z)) : Prop :=
+  match q with
+  | [] => True
+  | e :: rest => Forall (fun e' => snd e < snd e') rest /\ tags_sorted rest
+  end.
+Definition QInv (s : st) : Prop := tags_sorted (qs s) /\ Forall (fun e => snd e < tick s) (qs s).
+
+Lemma tags_sorted_filter : forall f q, tags_sorted q -> tags_sorted (filter f q).
+Proof.
+  intros f q. induction q as [|e q IH]; cbn; auto. intros [H1 H2].
+  destruct (f e); cbn; auto. split; auto.
+  apply Forall_forall. intros x Hx. apply filter_In in Hx. destruct Hx as [Hx _].
+  rewrite Forall_forall in H1. auto.
+Qed.
+
+Lemma tags_sorted_snoc : forall q e, tags_sorted q -> Forall (fun e' => snd e' < snd e) q -> tags_sorted (q ++ [e]).
+Proof.
+  induction q as [|a q IH]; intros e H F; cbn; auto.
+  destruct H as [H1 H2]. inversion F; subst. split.
+  - apply Forall_app. split; auto.
+  - apply IH; auto.
+Qed.
+
+Lemma qs_recv : forall s p, qs (fst (recv s p)) = qs s /\ tick (fst (recv s p)) = tick s /\ cap (fst (recv s p)) = cap s.
+Proof.
+  intros s p. destruct (select s p) as [[[l g] b]|] eqn:S; [|unfold recv; rewrite S; auto].
+  rewrite (recv_cases s p l g b S).
+  destruct (is_closed s l); [|destruct (is_full s l)]; destruct b; auto.
+Qed.
+
+Lemma qs_with_route : forall s l f, qs (with_route s l f) = qs s /\ tick (with_route s l f) = tick s /\ cap (with_route s l f) = cap s.
+Proof. intros. unfold with_route. destruct (existsb _ _); auto. Qed.
+
+Lemma QInv_step : forall s o, QInv s -> QInv (fst (step s o)).
+Proof.
+  intros s o [H1 H2]. unfold QInv.
+  destruct o; cbn [step fst]; try (split; assumption).
+  - unfold register_mid. destruct (qs_with_route (set_by_mid s (kput (by_mid s) mid l)) l
+      (fun r => mkRoute (Some mid) (r_pts r) (r_tx r) (r_prov r))) as [E1 [E2 _]]. rewrite E1, E2. split; assumption.
+  - unfold register_payload_type. destruct (qs_with_route s l
+      (fun r => mkRoute (r_mid r) (if contains (r_pts r) pt then r_pts r else r_pts r ++ [pt]) (r_tx r) (r_prov r))) as [E1 [E2 _]].
+    rewrite E1, E2. split; assumption.
+  - unfold register_payload_types. destruct (qs_with_route s l
+      (fun r => mkRoute (r_mid r) (push_dedup [] pts) (r_tx r) (r_prov r))) as [E1 [E2 _]]. rewrite E1, E2. split; assumption.
+  - unfold register_provisional. destruct (qs_with_route s l
+      (fun r => mkRoute (r_mid r) (r_pts r) (r_tx r) true)) as [E1 [E2 _]]. rewrite E1, E2. split; assumption.
+  - cbn [set_qs set_closed qs tick]. split.
+    + apply tags_sorted_filter. exact H1.
+    + apply Forall_forall. intros x Hx. apply filter_In in Hx. destruct Hx as [Hx _]. rewrite Forall_forall in H2. auto.
+  - cbn [set_qs qs tick]. split.
+    + apply tags_sorted_filter. exact H1.
+    + apply Forall_forall. intros x Hx. apply filter_In in Hx. destruct Hx as [Hx _]. rewrite Forall_forall in H2. auto.
+  - destruct (qs_recv s p) as [E1 [E2 _]]. unfold after_recv. cbn [set_qs qs tick]. rewrite E1, E2.
+    pose proof (recv_at_most_one s p) as L.
+    destruct (snd (recv s p)) as [|l [|l2 rest]]; cbn [map app]; cbn [length] in L; [| |lia].
+    + rewrite app_nil_r. split; auto. eapply Forall_impl; [|exact H2]. cbn. intros; lia.
+    + split.
+      * apply tags_sorted_snoc; auto.
+      * apply Forall_app. split; [eapply Forall_impl; [|exact H2]; cbn; intros; lia|]. constructor; [cbn; lia|constructor].
+Qed.
+
+Lemma QInv_run : forall ops s, QInv s -> QInv (run s ops).
+Proof. induction ops as [|o ops IH]; intros s H; cbn [run]; auto. apply IH. apply QInv_step. exact H. Qed.
+
+Lemma QInv_init : forall c, QInv (init_with c).
+Proof. intro c. split; constructor. Qed.
+
+(* per listener: the queue is strictly increasing (arrival order, no duplicate) *)
+Lemma tags_sorted_queue : forall q l,
+  tags_sorted q -> StronglySorted Z.lt (map snd (filter (fun e : lid * Z => fst e =? l) q)).
+Proof.
+  induction q as [|e q IH]; intros l H; [constructor|].
+  destruct H as [H1 H2]. cbn [filter]. destruct (fst e =? l) eqn:E.
+  - cbn [map]. constructor; [apply IH; exact H2|].
+    apply Forall_forall. intros x Hx. apply in_map_iff in Hx. destruct Hx as [e' [Ex He']]. subst.
+    apply filter_In in He'. destruct He' as [He' _]. rewrite Forall_forall in H1. auto.
+  - apply IH. exact H2.
+Qed.
+
+Lemma queue_fifo : forall c ops l, StronglySorted Z.lt (queue (run (init_with c) ops) l).
+Proof. intros c ops l. unfold queue. apply tags_sorted_queue. apply (QInv_run ops (init_with c) (QInv_init c)). Qed.
+
+(* no packet tag sits in the queues of two listeners *)
+Lemma tags_sorted_unique : forall q l1 l2 t, tags_sorted q -> In (l1, t) q -> In (l2, t) q -> l1 = l2.
+Proof.
+  induction q as [|e q IH]; intros l1 l2 t H I1 I2; [destruct I1|].
+  destruct H as [H1 H2]. rewrite Forall_forall in H1.
+  destruct I1 as [I1|I1]; destruct I2 as [I2|I2].
+  - congruence.
+  - subst e. apply H1 in I2. cbn in I2. lia.
+  - subst e. apply H1 in I1. cbn in I1. lia.
+  - eapply IH; eauto.
+Qed.
+
+Lemma queue_tag_one_listener : forall c ops l1 l2 t,
+  In t (queue (run (init_with c) ops) l1) -> In t (queue (run (init_with c) ops) l2) -> l1 = l2.
+Proof.
+  intros c ops l1 l2 t I1 I2. unfold queue in *.
+  apply in_map_iff in I1. destruct I1 as [[a t1] [E1 F1]]. apply in_map_iff in I2. destruct I2 as [[b t2] [E2 F2]].
+  cbn in E1, E2. subst. apply filter_In in F1. apply filter_In in F2. destruct F1 as [F1 G1]. destruct F2 as [F2 G2].
+  cbn in G1, G2. apply Z.eqb_eq in G1. apply Z.eqb_eq in G2. subst.
+  eapply tags_sorted_unique; eauto. apply (QInv_run ops (init_with c) (QInv_init c)).
+Qed.
+
+(* a channel never holds more than its capacity *)
+Lemma qlen_filter_le : forall (q : list (lid * Z)) (f : lid * Z -> bool) (l : lid),
+  (length (filter (fun e : lid * Z => (fst e =? l)%Z) (filter f q)) <= length (filter (fun e : lid * Z => (fst e =? l)%Z) q))%nat.
+Proof.
+  induction q as [|e q IH]; intros f l; cbn [filter]; auto.
+  destruct (f e); cbn [filter]; destruct (fst e =? l); cbn [length]; try apply le_n_S; try apply IH.
+  apply Nat.le_trans with (1 := IH f l). auto.
+Qed.
+
+Definition CapInv (s : st) : Prop := forall l, qlen s l <= Z.max (cap s) 0.
+
+Lemma CapInv_step : forall s o, CapInv s -> CapInv (fst (step s o)).
+Proof.
+  intros s o H. unfold CapInv, qlen, queue in *.
+  destruct o; cbn [step fst]; try exact H.
+  - unfold register_mid. destruct (qs_with_route (set_by_mid s (kput (by_mid s) mid l)) l
+      (fun r => mkRoute (Some mid) (r_pts r) (r_tx r) (r_prov r))) as [E1 [_ E3]]. rewrite E1, E3. exact H.
+  - unfold register_payload_type. destruct (qs_with_route s l
+      (fun r => mkRoute (r_mid r) (if contains (r_pts r) pt then r_pts r else r_pts r ++ [pt]) (r_tx r) (r_prov r))) as [E1 [_ E3]].
+    rewrite E1, E3. exact H.
+  - unfold register_payload_types. destruct (qs_with_route s l
+      (fun r => mkRoute (r_mid r) (push_dedup [] pts) (r_tx r) (r_prov r))) as [E1 [_ E3]]. rewrite E1, E3. exact H.
+  - unfold register_provisional. destruct (qs_with_route s l
+      (fun r => mkRoute (r_mid r) (r_pts r) (r_tx r) true)) as [E1 [_ E3]]. rewrite E1, E3. exact H.
+  - intro l0. cbn [set_qs set_closed qs cap]. specialize (H l0). rewrite map_length in H. rewrite map_length.
+    pose proof (qlen_filter_le (qs s) (fun e => negb (fst e =? l)) l0) as Q.
+    apply Z.le_trans with (2 := H). apply Nat2Z.inj_le. exact Q.
+  - intro l0. cbn [set_qs qs cap]. specialize (H l0). rewrite map_length in H. rewrite map_length.
+    pose proof (qlen_filter_le (qs s) (fun e => negb (fst e =? l)) l0) as Q.
+    apply Z.le_trans with (2 := H). apply Nat2Z.inj_le. exact Q.
+  - intro l0. destruct (qs_recv s p) as [E1 [E2 E3]]. unfold after_recv. cbn [set_qs qs cap]. rewrite E1, E3.
+    destruct (snd (recv s p)) as [|l1 rest] eqn:D; cbn [map].
+    + rewrite app_nil_r. apply H.
+    + assert (Hin : In l1 (snd (recv s p))) by (rewrite D; left; reflexivity).
+      apply recv_delivers in Hin. destruct Hin as [g [b [S [C F]]]].
+      pose proof (recv_at_most_one s p) as L. rewrite D in L. destruct rest; [|cbn in L; lia].
+      cbn [map]. rewrite filter_app, map_app, app_length. cbn [filter fst].
+      destruct (l1 =? l0) eqn:E; cbn [map length].
+      * apply Z.eqb_eq in E. subst l0. unfold is_full, qlen, queue in F. apply Z.leb_gt in F.
+        rewrite !map_length in *. unfold lid in *. rewrite Nat2Z.inj_add. cbn [Z.of_nat Pos.of_succ_nat]. lia.
+      * specialize (H l0). rewrite !map_length in *. unfold lid in *. cbn [length]. rewrite Nat.add_0_r. exact H.
+Qed.
+
+Lemma queue_bounded : forall c ops l, 0 <= c -> qlen (run (init_with c) ops) l <= c.
+Proof.
+  intros c ops l Hc.
+  assert (G : forall ops s, CapInv s -> CapInv (run s ops)).
+  { induction ops0 as [|o ops0 IH]; intros s H; cbn [run]; auto. apply IH. apply CapInv_step. exact H. }
+  assert (I0 : CapInv (init_with c)). { intro l0. cbn. lia. }
+  specialize (G ops (init_with c) I0 l).
+  assert (Ec : cap (run (init_with c) ops) = c).
+  { clear G. generalize (init_with c) (eq_refl : cap (init_with c) = c). induction ops as [|o ops IH]; intros s E; cbn [run]; auto.
+    apply IH. destruct o; cbn [step fst]; auto.
+    - unfold register_mid. destruct (qs_with_route (set_by_mid s (kput (by_mid s) mid l0)) l0
+        (fun r => mkRoute (Some mid) (r_pts r) (r_tx r) (r_prov r))) as [_ [_ E3]]. rewrite E3. exact E.
+    - unfold register_payload_type. destruct (qs_with_route s l0
+        (fun r => mkRoute (r_mid r) (if contains (r_pts r) pt then r_pts r else r_pts r ++ [pt]) (r_tx r) (r_prov r))) as [_ [_ E3]]. rewrite E3. exact E.
+    - unfold register_payload_types. destruct (qs_with_route s l0
+        (fun r => mkRoute (r_mid r) (push_dedup [] pts) (r_tx r) (r_prov r))) as [_ [_ E3]]. rewrite E3. exact E.
+    - unfold register_provisional. destruct (qs_with_route s l0
+        (fun r => mkRoute (r_mid r) (r_pts r) (r_tx r) true)) as [_ [_ E3]]. rewrite E3. exact E.
+    - destruct (qs_recv s p) as [_ [_ E3]]. cbn [after_recv set_qs cap]. rewrite E3. exact E. }
+  rewrite Ec in G. lia.
+Qed.
+
 (* ------------------------------------------------------------------ premises are satisfiable (examples) *)
-Definition ex_mid_ext (m : list Z) : list (Z * list Z) := [(1, m)].
+(* one-byte block with a single element: id 1, one data byte *)
+Definition ex_mid_ext (m : Z) : option (Z * list Z) := Some (48862, [16; m; 0; 0]).
 
 (* two sections share payload type 96; the MID decides, the SSRC is learnt, a later packet without
    MID follows the learnt binding; an unknown SSRC with the shared payload type is dropped *)
 Example ex_mid_routing :
   run_out init [SetMidId 1; RegMid [97] 10; RegPtList [96] 10; RegMid [118] 20; RegPtList [96] 20;
-                Recv (mkPkt 5555 96 (ex_mid_ext [118])); Recv (mkPkt 5555 96 []); Recv (mkPkt 7777 96 [])]
+                Recv (mkPkt 5555 96 (ex_mid_ext 118)); Recv (mkPkt 5555 96 None); Recv (mkPkt 7777 96 None)]
   = [[]; []; []; []; []; [20]; [20]; []].
 Proof. vm_compute. reflexivity. Qed.
 
 (* a listener observed closed disappears from every map *)
 Example ex_closed :
   let ops := [SetMidId 1; RegMid [97] 10; RegPt 96 10; RegSsrc 1 10; Close 10;
-              Recv (mkPkt 1 96 []); Recv (mkPkt 1 96 (ex_mid_ext [97]))] in
+              Recv (mkPkt 1 96 None); Recv (mkPkt 1 96 (ex_mid_ext 97))] in
   run_out init ops = [[]; []; []; []; []; []; []] /\ occurs (run init ops) 10 = false.
 Proof. vm_compute. split; reflexivity. Qed.
 
 (* the provisional fallback delivers but never binds *)
 Example ex_provisional :
-  let ops := [RegProv 10; Recv (mkPkt 1111 0 [])] in
+  let ops := [RegProv 10; Recv (mkPkt 1111 0 None)] in
   run_out init ops = [[]; [10]] /\ has_listener (run init ops) 1111 = false.
 Proof. vm_compute. split; reflexivity. Qed.
 
-(* a MID that names no registered section falls through to the lower stages (here: the unique
-   payload-type route of another section) -- the reason C19_mid_respected requires a registered MID *)
-Example ex_unregistered_mid_falls_through :
-  run_out init [SetMidId 1; RegMid [97] 10; RegPtList [96] 10; Recv (mkPkt 9 96 (ex_mid_ext [118]))]
-  = [[]; []; []; [10]].
+(* a packet that names section "v" is not handed by payload type to the listener registered for
+   section "a" (finding F27, fixed: before the fix it was delivered to 10); a listener that registered
+   no MID at all still gets such a packet by payload type *)
+Example ex_foreign_mid_dropped :
+  run_out init [SetMidId 1; RegMid [97] 10; RegPtList [96] 10; Recv (mkPkt 9 96 (ex_mid_ext 118))]
+  = [[]; []; []; []] /\
+  run_out init [SetMidId 1; RegPtList [96] 10; Recv (mkPkt 9 96 (ex_mid_ext 118))] = [[]; []; [10]].
+Proof. vm_compute. split; reflexivity. Qed.
+
+(* a full channel drops the packet, the consumer sees what was queued in arrival order *)
+Example ex_full :
+  run_obs (init_with 2) [RegSsrc 1 10; Recv (mkPkt 1 0 None); Recv (mkPkt 1 0 None); Recv (mkPkt 1 0 None);
+                         Drain 10; Recv (mkPkt 1 0 None); Drain 10]
+  = [([10], true); ([10], true); ([], true); ([0; 1], false); ([10], true); ([3], false)].
 Proof. vm_compute. reflexivity. Qed.
 
 (* after clear_listeners (fixed: it now also empties the MID map) nobody is registered: a
    MID-carrying packet no longer reaches the old listener *)
 Example ex_clear_drops_mid :
-  run_out init [SetMidId 1; RegMid [97] 10; ClearListeners; Recv (mkPkt 9 96 (ex_mid_ext [97]))]
+  run_out init [SetMidId 1; RegMid [97] 10; ClearListeners; Recv (mkPkt 9 96 (ex_mid_ext 97))]
   = [[]; []; []; []].
 Proof. vm_compute. reflexivity. Qed.
